@@ -132,8 +132,14 @@ def check_dimension_create_guard(model, rep, rule):
     """Dimension.create accepts a new base symbol only if the reader of dimension strings reads it back as itself: the guard goes through the same
     tokenizer (_split_factors) that parses names such as 'L7' or 'T_2' as powers of L and T."""
     f = model.func('SI:Dimension.create')
-    guards = [s_ for s_ in f.body if isinstance(s_, ast.If) and s_.body and isinstance(s_.body[-1], ast.Raise)]
-    ok = any(any(isinstance(c, ast.Call) and src(c.func) == '_split_factors' for c in ast.walk(g.test)) for g in guards)
+    guards = [s_ for s_ in ast.walk(f.node) if isinstance(s_, ast.If) and s_.body and isinstance(s_.body[-1], ast.Raise)]
+    # names that hold what the tokenizer returned for the new symbol
+    derived = set()
+    for s_ in ast.walk(f.node):
+        if isinstance(s_, ast.Assign) and any(isinstance(c, ast.Call) and src(c.func) == '_split_factors' for c in ast.walk(s_.value)):
+            derived |= {n_.id for t_ in s_.targets for n_ in ast.walk(t_) if isinstance(n_, ast.Name)}
+    ok = any(any(isinstance(c, ast.Call) and src(c.func) == '_split_factors' for c in ast.walk(g.test)) or
+             (derived & {n_.id for n_ in ast.walk(g.test) if isinstance(n_, ast.Name)} and 'arg' in {n_.id for n_ in ast.walk(g.test) if isinstance(n_, ast.Name)}) for g in guards)
     rep.ob(rule, f.key, f.where(), ok, 'a new base symbol is checked with the tokenizer of dimension strings' if ok else
            'Dimension.create no longer checks the new symbol with _split_factors: a symbol that the reader splits into a base and a power (L7, T_2) is accepted as a new base '
            'and takes the name of a power of an existing dimension', statement='create-guard')
